@@ -34,14 +34,14 @@ def shadowingReports [Core.NameFilter] (σ : Core.St) : List (Nat × Nat) :=
   σ.shadows.filterMap fun p => p.2.map fun s => (p.1, s)
 
 /-- the name filter of `shadowing.rs`: not matched by the ignore pattern, not `...` -/
-def lintFilter (ignore : String → Bool) : Core.NameFilter := ⟨fun n => !ignore n && n != "..."⟩
+def lintFilter (ignore : String → Bool) : Core.NameFilter := { keep := fun n => !ignore n && n != "..." }
 
 /-- **C03 (reported exactly when a visible same-name local exists).** For every chunk and every ignore
 predicate: `(t, s)` is reported — declaration token `t`, secondary label `s` — iff Lua's scoping rules
 say that `t` declares a name under which the local declared at `s` is visible at that point, and the
 name is neither ignored nor `...`. -/
 theorem C03_report_iff (ignore : String → Bool) (b : Block) (t s : Nat) :
-    (t, s) ∈ @shadowingReports (lintFilter ignore) (@Core.analyse (lintFilter ignore) b) ↔
+    (t, s) ∈ @shadowingReports (lintFilter ignore) (Core.analyse b) ↔
       ∃ d ∈ (Spec.resolve b).decls, d.tok = t ∧ d.visibleSameName.map (·.1) = some s ∧
         ignore d.name = false ∧ d.name ≠ "..." ∧ d.kind ≠ .varargParam := by
   letI := lintFilter ignore
@@ -82,7 +82,7 @@ example :
     let b : Block := .mk none
       (.cons (.localAssign ⟨0, 1⟩ [t 1 "x"] .nil)
         (.cons (.do_ ⟨2, 5⟩ (.mk none (.cons (.localAssign ⟨3, 4⟩ [t 4 "x"] .nil) .nil) .none)) .nil)) .none
-    @shadowingReports (lintFilter fun _ => false) (@Core.analyse (lintFilter fun _ => false) b) = [(4, 1)] := by
+    @shadowingReports (lintFilter fun _ => false) (Core.analyse b) = [(4, 1)] := by
   decide
 
 /-- **C03 (lint soundness over the tables).** Every `shadowing` diagnostic names a variable whose
